@@ -202,7 +202,7 @@ def run(prop, tier, seed, rep):
             raw.append(rng.choice(MALFORMED))
         stream = b"".join(raw)
         cuts = sorted(rng.sample(range(1, len(stream)), rng.randrange(0, 4)))
-        segs = [[list(stream[a:b]), rng.choice(("short", "long"))] for a, b in zip([0] + cuts, cuts + [len(stream)])]
+        segs = [[list(stream[a:b]), rng.choice(("short", "long", "near"))] for a, b in zip([0] + cuts, cuts + [len(stream)])]
         sent = line_info(raw)
         jobs.append((rng.choice(("1090", "radar")), segs, sent, "malformed", "hold"))
     # a line whose first part is text and whose rest is not UTF-8 (or a multi-byte character cut in two), split exactly
